@@ -82,7 +82,13 @@ int main(int argc, char** argv) {
             const double sc = C["scale"].d();
             shapes::transform(m, sc, p0[0], p0[1], p0[2]);
             const vj::value& PR = C["params"];
-            auto mk = [&](const std::vector<double>& pos) {
+            // "frag": the cell is built at distorted positions, its lists are fragmented (unused slots before live elements, as edge
+            // collapses leave them), and only then its nodes are moved to their places: everything cached at construction is stale
+            const unsigned frag = C.has("frag") ? (unsigned)C["frag"].i() : 0u;
+            const bool fragn = C.has("fragn") && C["fragn"].boolean();
+            auto mk = [&](const std::vector<double>& pos_final) {
+                std::vector<double> pos = pos_final;
+                if (frag || fragn) for (size_t j = 0; j < pos.size(); j++) pos[j] = pos_final[j] * (j % 3 == 0 ? 1.08 : j % 3 == 1 ? 0.95 : 1.0) + 0.01 * sc * std::sin(1.0 + 0.37 * (double)j);
                 auto ct = make_type(PR["g0"].d());
                 ct->area_elasticity_modulus_ = PR["ka"].d(); ct->angle_regularization_factor_ = PR["kang"].d(); ct->bulk_modulus_ = PR["K"].d();
                 for (int k = 0; k < 3; k++) ct->face_types_[k].bending_modulus_ = PR["kb"].d() * (1 + k);
@@ -90,6 +96,17 @@ int main(int argc, char** argv) {
                 c->initialize_cell_properties(true);
                 auto& F = cell_tester::faces(*c);
                 for (size_t f = 0; f < F.size(); f++) F[f].set_face_type_id(f % 3);
+                if (frag || fragn) {
+                    cell_tester::fragment(*c, frag, fragn);
+                    auto& N = cell_tester::nodes(*c);
+                    const size_t n0 = pos_final.size() / 3;
+                    for (size_t i = 0; i < n0; i++) {
+                        const size_t slot = (fragn && i == 0) ? N.size() - 1 : i;
+                        cell_tester::pos(N[slot]) = vec3(pos_final[3 * i], pos_final[3 * i + 1], pos_final[3 * i + 2]);
+                    }
+                    c->update_all_face_normals_and_areas();
+                    cell_tester::area(*c) = c->compute_area(); cell_tester::volume(*c) = c->compute_volume();
+                }
                 cell_tester::target_volume(*c) = c->get_volume() * PR["tv"].d();
                 return c;
             };
@@ -149,6 +166,7 @@ int main(int argc, char** argv) {
                 const double h = 1e-6 * sc;
                 double fscale_p = 0, fscale_t = 0; for (size_t i = 0; i < N.size(); i++) { fscale_p = std::max(fscale_p, fp[i].norm()); fscale_t = std::max(fscale_t, ft[i].norm()); }
                 for (size_t i = 0; i < N.size(); i += 3) {
+                    if (!N[i].is_used()) continue;
                     for (int a = 0; a < 3; a++) {
                         const vec3 e(a == 0, a == 1, a == 2);
                         const vec3 keep = N[i].pos();
